@@ -806,7 +806,8 @@ def drv_positions(tier, seed):
         if entry.startswith('view.') and oname != 'default':
           continue
         Case(rec, pos, (vt, oname, entry), pre, vsrc, opts, [p], present=present, entry=entry,
-             fmt=fmt, twin=(tier != 'quick' or oname == 'default')).run()
+             fmt=fmt, twin=(tier != 'quick' or (oname == 'default'
+                                                 and PAYLOAD_NAMES.index(pname) % 2 == 0))).run()
 
   # str leaves around the max_summary_len_for_str boundary.
   for pname in ('tag', 'mixed', 'entities', 'dq-attr'):
@@ -1036,7 +1037,7 @@ def expected_tree(v, kw):
 
 def drv_option_pairs(tier, seed):
   Plant._counter[0] = 100000
-  n_random = 30 if tier == 'quick' else 1500
+  n_random = 10 if tier == 'quick' else 1500
   rec = Recorder(
       PROP, 'pairwise tree-view option combinations over a composite tree',
       scope='%d options (2-6 values each: %s) -- greedy pairwise covering array + %d seeded random '
@@ -1069,8 +1070,11 @@ def drv_option_pairs(tier, seed):
         fills[name] = p
       fills['V8'] = slot('V8', 'tree.repr-leaf', 'text', hv, 8)
       fills['X'] = slot('X', 'tree.debug-info', 'none', hv, 9)
+      ks = choice['key_style'][0]
       for idx, name in enumerate(['K0', 'K1', 'K2']):
-        fills[name] = slot(name, 'tree.key', 'text', hk, 10 + idx)
+        label_style = ks == 'label' or (ks == 'fn' and choice['root'][0] == 'list' and name == 'K0')
+        fills[name] = slot(name, 'tree.key@%s-style' % ('label' if label_style else 'summary'),
+                           'text', hk, 10 + idx)
       fills['N'] = slot('N', 'tree.name-option', 'text', hk, 13)
       fills['T'] = slot('T', 'tree.title-option', 'text', hk, 14)
       benign = {'V0': 'valzero', 'V1': 'longval' + 'y' * 90, 'V2': 'valtwo', 'V3': 'valthree',
@@ -1215,11 +1219,13 @@ def drv_controls(tier, seed):
       if '.key' in pos and pname not in KEY_SAFE:
         continue
       for co in ('True', 'False'):
-        if co == 'False' and tier == 'quick' and (PAYLOAD_NAMES.index(pname) % 3):
+        pidx = PAYLOAD_NAMES.index(pname)
+        if co == 'False' and tier == 'quick' and (pidx % 5):
           continue
         p = Plant(pos, pname, 'text' if expect == 'tip' else expect)
         Case(rec, pos, (vt, co), PRE_CTL, lambda twin, vt=vt, p=p: vt.format(P=p.src(twin)),
              [('content_only', co)], [p], entry='v.to_html_str',
+             twin=(tier != 'quick' or pidx % 3 == 0),
              present=(lambda v, p=p, expect=expect, pos=pos:
                       [({'tip': 'tip', 'str': 'str'}.get(expect, 'text'), p.text,
                         pos.split('controls.')[-1])])
